@@ -1,0 +1,24 @@
+//go:build verif
+
+package timer
+
+import (
+	"context"
+	"time"
+
+	"github.com/qri-io/iso8601"
+
+	"github.com/olive-io/bpmn/v2/pkg/clock"
+)
+
+// VerifRecurring runs the unexported recurringTimer (verification hook for property C13), so that
+// a start, an interval and an end bound can be given together (the ISO 8601 parser used by New has
+// no syntax for that combination).
+func VerifRecurring(ctx context.Context, c clock.IClock, interval iso8601.RepeatingInterval, f func(), final func()) {
+	recurringTimer(ctx, c, interval, f, final)
+}
+
+// VerifDateTime runs the unexported dateTimeTimer.
+func VerifDateTime(ctx context.Context, c clock.IClock, t time.Time, f func()) {
+	dateTimeTimer(ctx, c, t, f)
+}
